@@ -5,6 +5,7 @@ CONSTANTS
   Conts <- cConts
   MaxList = 3
   MaxNodes = 5
+  PairNodes = 0
   PathNames = {"a", "b", "c", "*"}
   IdxNames = {"a", "b"}
   MaxIdx = 1
